@@ -431,6 +431,26 @@ def make_specs(ctx):
             for i in range(0, len(items), step):
                 specs.append({'typ': typ, 'm': m, 'no_prss': (i // step) % 2 == 1, 'seed': rng.randrange(1 << 30),
                               'items': items[i:i + step]})
+    # mode on WIDE-range data (max - min >= 2^(sec_param//6)): the histogram is built from the low bits of a - min; values
+    # a and a + 2^j (j = top bit of the range) with merged counts above the true mode's count expose bin collisions
+    def mode_wide():
+        R = rng.randrange(33, 200)
+        T = 1 << (R.bit_length() - 1)
+        lo = rng.randrange(-60, 20)
+        a = lo + rng.randrange(0, R - T + 1)
+        c = rng.randrange(1, 4)
+        b = lo + rng.choice([v for v in range(0, R + 1) if v not in (a - lo, a - lo + T)])
+        x = [lo, lo + R] + [a] * c + [a + T] * c + [b] * rng.randrange(c + 1, 2 * c + 1)
+        x += [lo + rng.randrange(0, R + 1) for _ in range(rng.randrange(0, 3))]
+        rng.shuffle(x)
+        return x
+    wide = [[0, 40, 7, 3, 35, 7, 3, 7, 35, 3, 7], [-50, 50, -30, -30, -30, -30, -45, -45, -45, 19, 19, 19]] + \
+        [mode_wide() for _ in range(ctx.scale(6, 60))]
+    for i, x in enumerate(wide):
+        typ = 'int' if i % 3 else 'fxp'
+        xs = x if typ == 'int' else [float(a) for a in x]
+        specs.append({'typ': typ, 'm': 3 if i % 4 == 3 else 1, 'no_prss': i % 8 == 7, 'seed': rng.randrange(1 << 30),
+                      'items': [(xs, None, [('mode',)])]})
     # square roots at the boundaries of the type
     roots = sorted({0, 1, 2, 3, 4, 2 ** (LI - 1) - 1, 2 ** (LI - 2), 2 ** (LI - 2) - 1} |
                    {k * k + d for k in (1, 2, 3, 7, 100, 181, 1000, 2047, 2048, 2896) for d in (-1, 0, 1)
